@@ -15,6 +15,9 @@ use super::world::World;
 pub struct Violation {
     pub prop: &'static str,
     pub rule: &'static str,
+    /// Causal fingerprint used to tell one finding of a (property, rule) from
+    /// another (DESIGN.md section 7). Empty when the rule needs none.
+    pub key: String,
     pub detail: String,
     pub step: u64,
     pub now_ms: u64,
@@ -116,6 +119,7 @@ pub struct Entry {
     pub restart_wait_done: bool,
     /// An RPC of this entry's lifecycle returned an injected error.
     pub rpc_fault_seen: bool,
+    pub fault_kinds: Vec<RpcKind>,
     pub first_answer: Option<Answer>,
     pub first_answer_step: Option<u64>,
     pub frozen_members: Vec<usize>,
@@ -138,6 +142,8 @@ pub struct Oracles {
     pub notifications: Vec<(String, String, String)>,
     pub probe_results: Vec<(usize, bool)>,
     pub quick_read_faults: bool,
+    /// Key of the first panic in the current lifetime (cause of later hangs).
+    pub first_panic_key: Option<String>,
 }
 
 impl Oracles {
@@ -155,6 +161,7 @@ impl Oracles {
             notifications: Vec::new(),
             probe_results: Vec::new(),
             quick_read_faults: false,
+            first_panic_key: None,
         }
     }
 
@@ -189,6 +196,17 @@ impl Oracles {
     }
 
     pub fn violate(&mut self, w: &World, prop: &'static str, rule: &'static str, detail: String) {
+        self.violate_k(w, prop, rule, String::new(), detail)
+    }
+
+    pub fn violate_k(
+        &mut self,
+        w: &World,
+        prop: &'static str,
+        rule: &'static str,
+        key: String,
+        detail: String,
+    ) {
         if w.cfg.backpressure && !Self::sound_under_backpressure(prop, rule) {
             self.hit("skipped.rule-not-evaluated-under-backpressure");
             return;
@@ -197,12 +215,13 @@ impl Oracles {
         let n = self
             .violations
             .iter()
-            .filter(|v| v.prop == prop && v.rule == rule)
+            .filter(|v| v.prop == prop && v.rule == rule && v.key == key)
             .count();
         if n < 3 {
             self.violations.push(Violation {
                 prop,
                 rule,
+                key,
                 detail,
                 step: w.step,
                 now_ms: w.now_ms,
@@ -234,6 +253,7 @@ impl Oracles {
     // ------------------------------------------------------------------------
 
     pub fn on_boot(&mut self, _w: &World) {
+        self.first_panic_key = None;
         self.entries.clear();
         self.expect_now.clear();
         self.step_new_rpcs.clear();
@@ -262,7 +282,11 @@ impl Oracles {
 
     pub fn on_panic(&mut self, w: &World, msg: &str) {
         self.panics += 1;
-        self.violate(w, "C06", "panic", format!("plugin task panicked: {}", msg));
+        let key = panic_key(msg);
+        if self.first_panic_key.is_none() {
+            self.first_panic_key = Some(key.clone());
+        }
+        self.violate_k(w, "C06", "panic", key, format!("plugin task panicked: {}", msg));
     }
 
     pub fn on_notification(&mut self, w: &World, dest: &str, hash: &str, invoice: &str) {
@@ -371,6 +395,7 @@ impl Oracles {
                     restart_path: false,
                     restart_wait_done: false,
                     rpc_fault_seen: false,
+                    fault_kinds: Vec::new(),
                     first_answer: None,
                     first_answer_step: None,
                     frozen_members: Vec::new(),
@@ -509,6 +534,25 @@ impl Oracles {
         if let Some(e) = self.entries.get_mut(x) {
             e.marker_issued = true;
             e.snap = Some((bound, told_low));
+            if !e.funded && e.doomed.is_none() {
+                let (sum, amt) = (e.sum, e.amount_msat);
+                self.violate(
+                    w,
+                    "C12",
+                    "attempt-for-unfunded-set",
+                    format!("payment attempt started for hash {} although the held HTLCs ({} msat) do not cover amount {} plus fee by the exact predicate", rf::hex(x), sum, amt),
+                );
+                self.violate(
+                    w,
+                    "C03",
+                    "attempt-for-unfunded-set",
+                    format!("payment attempt started for hash {} although the held HTLCs ({} msat) do not cover amount {} plus fee", rf::hex(x), sum, amt),
+                );
+            }
+            let e = self.entries.get_mut(x).unwrap();
+            if e.funded {
+                *self.reach.entry("c12.readiness-checked").or_insert(0) += 1;
+            }
             // C12c / C07: a doomed set never starts paying.
             if e.doomed.is_some() {
                 let why = e.doomed.as_ref().unwrap().2;
@@ -748,22 +792,17 @@ impl Oracles {
         let r = &w.node.rpcs[ri];
         let kind = rpc_kind(r.method, &r.params);
         let applied = r.fault.is_none() || r.fault == Some("applied-but-error");
-        if !applied {
-            if let Some(x) = r.hash {
-                if let Some(e) = self.entries.get_mut(&x) {
-                    e.rpc_fault_seen = true;
-                    e.timing_ambiguous = true;
-                }
-            }
-            return;
-        }
         if r.fault.is_some() {
             if let Some(x) = r.hash {
                 if let Some(e) = self.entries.get_mut(&x) {
                     e.rpc_fault_seen = true;
                     e.timing_ambiguous = true;
+                    e.fault_kinds.push(kind);
                 }
             }
+        }
+        if !applied {
+            return;
         }
         if let Some(x) = r.hash {
             match kind {
@@ -1109,10 +1148,29 @@ impl Oracles {
                     self.hit("c02.fail-of-held-htlc");
                     if w.node.live(&x) {
                         self.hit("c02.fail-while-live");
-                        self.violate(
+                        let key = match self.entries.get(&x) {
+                            Some(e) => {
+                                if matches!(e.fetch_reply, Some(Err(()))) {
+                                    "stored-state-read-failed".to_string()
+                                } else if e.fault_kinds.iter().any(|k| {
+                                    matches!(k, RpcKind::ListSendpays | RpcKind::WaitSendpay)
+                                }) {
+                                    if e.pay_issued {
+                                        "payment-status-read-failed-after-pay".to_string()
+                                    } else {
+                                        "payment-status-read-failed-on-restart".to_string()
+                                    }
+                                } else {
+                                    String::new()
+                                }
+                            }
+                            None => String::new(),
+                        };
+                        self.violate_k(
                             w,
                             "C02",
                             "fail-while-live",
+                            key,
                             format!(
                                 "htlc {} for hash {} failed back ({}) while pending={} complete={} pay-running={} pay-rpc-outstanding={}",
                                 c.hid,
@@ -1144,6 +1202,9 @@ impl Oracles {
         if e.first_answer.is_none() {
             e.first_answer = Some(ans.clone());
             e.first_answer_step = Some(w.step);
+            if e.members.len() >= 2 {
+                *self.reach.entry("c07.multi-member-set-decided").or_insert(0) += 1;
+            }
             // Members delivered in earlier steps have provably reached the table.
             e.frozen_members = e
                 .members
@@ -1368,6 +1429,47 @@ impl Oracles {
                 }
             }
         }
+        // ---- C12(c): a funded, unrejected set with no earlier attempt starts paying -----
+        if !w.cfg.backpressure && w.cfg.mpp_timeout != 0 {
+            let mut late: Vec<H32> = Vec::new();
+            let mut checked = 0;
+            for (x, e) in self.entries.iter() {
+                if !e.funded || e.doomed.is_some() || e.either || e.marker_issued || e.first_answer.is_some() {
+                    continue;
+                }
+                if !matches!(&e.fetch_reply, Some(Ok(StoreKind::Free)) | Some(Ok(StoreKind::Absent))) {
+                    continue;
+                }
+                let (fs, rs) = match (e.funded_step, e.fetch_reply_step) {
+                    (Some(a), Some(b)) => (a, b),
+                    _ => continue,
+                };
+                // Funding at (or within the slack of) the MPP deadline: either branch may win.
+                if let (Some(ws), Some(left), Some(fm)) = (e.wait_start_ms, e.time_left_ms, e.funded_ms) {
+                    if fm + SLACK_MS >= ws + left {
+                        continue;
+                    }
+                }
+                if step >= fs.max(rs) {
+                    checked += 1;
+                    late.push(*x);
+                }
+            }
+            for _ in 0..checked {
+                self.hit("c12.readiness-violated-or-pending");
+            }
+            for x in late {
+                self.violate(
+                    w,
+                    "C12",
+                    "funded-set-not-paid",
+                    format!("set for hash {} is funded by the exact predicate, was not rejected and has no earlier attempt on record, but no payment attempt was started in the step that completed it", rf::hex(&x)),
+                );
+                if let Some(e) = self.entries.get_mut(&x) {
+                    e.either = true;
+                }
+            }
+        }
         // ---- C06(4): bounded liveness of never-funded sets -----------------------------
         if !w.cfg.backpressure {
             let mut late: Vec<(H32, u64, u64)> = Vec::new();
@@ -1477,11 +1579,46 @@ impl Oracles {
         // ---- C06(3): nothing delivered stays unanswered ---------------------------------
         if w.quiescing && w.plugin_up {
             self.hit("c06.end-of-run-checked");
+            let ukey = match &self.first_panic_key {
+                Some(k) => format!("after-panic:{}", k),
+                None => String::new(),
+            };
+            if let Some(fz) = w.frozen_hash {
+                let mut other_progress = false;
+                let mut blocked: Vec<u64> = Vec::new();
+                for c in w.node.calls.iter().filter(|c| c.lifetime == w.node.lifetime) {
+                    let hx = w.node.htlc(c.hid).spec.hash_ix;
+                    if hx == fz {
+                        continue;
+                    }
+                    if c.delivered_step.map(|s| Some(s) >= w.frozen_at_step).unwrap_or(false) {
+                        other_progress = true;
+                    }
+                    if c.delivered_step.is_some() && c.answer.is_none() {
+                        blocked.push(c.hid);
+                    }
+                }
+                if other_progress {
+                    self.hit("c14.frozen-run-completed");
+                }
+                for hid in blocked {
+                    self.violate(
+                        w,
+                        "C14",
+                        "other-hash-blocked",
+                        format!("htlc {} of a different hash stayed unanswered while hash index {} was frozen (its RPCs withheld)", hid, fz),
+                    );
+                }
+            }
             for (_, c) in w.node.held_calls() {
-                self.violate(
+                if Some(w.node.htlc(c.hid).spec.hash_ix) == w.frozen_hash {
+                    continue;
+                }
+                self.violate_k(
                     w,
                     "C06",
                     "unanswered",
+                    ukey.clone(),
                     format!(
                         "hook call for htlc {} ({}, class {}) still unanswered after every RPC was answered, every part resolved and time advanced past every deadline",
                         c.hid,
@@ -1517,6 +1654,13 @@ impl Oracles {
             }
         }
     }
+}
+
+/// Panic message without location, shortened: the fingerprint of a panic.
+pub fn panic_key(msg: &str) -> String {
+    let m = msg.split(" @ ").next().unwrap_or(msg);
+    let m: String = m.chars().take(90).collect();
+    m
 }
 
 pub fn class_name(c: &Class) -> &'static str {
